@@ -227,6 +227,11 @@ def meas_circuits(job):
     else:
         prep = impl.circuit_from_gates(N, job["prep"])
         arg_list = lst
+        if lst is not None and job.get("seqtype") == "tuple":
+            arg_list = tuple(lst)
+        elif lst is not None and job.get("seqtype") == "ndarray":
+            import numpy as np
+            arg_list = np.array(lst)
     before = impl.gates_of(prep)
     out = []
     try:
@@ -682,9 +687,12 @@ ENTRY_POINTS = ["get_preparation_circuit", "get_readout_circuit", "compress_prep
 def config_gate(job):
     """job = (entry point, n, name) -> `config` record"""
     from qiskit import QuantumCircuit
-    entry, n, name = job
+    entry, n, name = job[0], job[1], job[2]
     lib = L()
     rec = {"op": "config", "entry": entry, "n": n, "name": name if name is not None else "<None>", "outcome": "raise", "exc": ""}
+    if len(job) > 3 and job[3] == "npint":
+        import numpy as np
+        n = np.int64(n)          # a qubit count that arrives as a numpy integer must be treated like the int it equals
     try:
         St = lib.stabilizer.Stabilizer
         zs = ["I" * q + "Z" + "I" * (n - q - 1) for q in range(n)]
